@@ -109,7 +109,7 @@ def collect_agent_data(
             arguments[entry] = []
 
     data = {
-        k: (np.asarray(v, dtype=object) if k == "marker" else np.asarray(v))
+        k: (np.asarray(v, dtype=object) if k == "marker" else _as_array(v))
         for k, v in arguments.items()
     }
     # ensures that the tuples in marker dont get converted by numpy to an array resulting in a 2D array
@@ -117,6 +117,21 @@ def collect_agent_data(
     arr[:] = arguments["marker"]
     data["marker"] = arr
     return data
+
+
+def _as_array(values):
+    """One array element per agent.
+
+    Values that numpy cannot combine into one array (color names next to RGB(A) tuples,
+    tuples of different lengths, tuples next to None) are kept as they are.
+    """
+    try:
+        return np.asarray(values)
+    except ValueError:
+        arr = np.empty(len(values), dtype=object)
+        for i, value in enumerate(values):
+            arr[i] = value
+        return arr
 
 
 def draw_space(
